@@ -574,6 +574,9 @@ CHECKS = {
                     dict(name='adopt-table-annotation', shards=4 if tier == 'quick' else 14,
                          driver=['adopt-table', '-n', '1500' if tier == 'quick' else '20000', '-seed', str(seed + 11)], invariants=INV['C01'])]),
     'C11': dict(level='model_checking', invariants=INV['C11'], assumptions=ASSUME, jobs=lambda tier, seed: [
+        # the scope rule for ObjectTemplates (sources and target of a namespaced template stay in its namespace; cluster-scoped kinds are out of reach)
+        dict(name='template-scope', shards=4 if tier == 'quick' else 14, invariants=['Inv_C11_Scope', 'Inv_C18_InvalidNoWrite', 'Inv_C19_NoPanic'],
+             driver=['template-walk', '-n', '56' if tier == 'quick' else '2800', '-steps', '10', '-seed', str(seed)]),
         dict(name='preflight-table', shards=8 if tier == 'quick' else 14,
              driver=['preflight-table', '-n', '1500' if tier == 'quick' else '0', '-seed', str(seed)])]),
 }
